@@ -3,7 +3,7 @@
 # runs ALL checks (in parallel); any VIOLATED/UNDECIDED line is a false alarm.
 set -u
 export GOFLAGS=-mod=mod GOPROXY=off GOSUMDB=off GOTOOLCHAIN=local; unset GOWORK
-D=$(realpath "$1"); W=/var/tmp/frp-mut
+D=$(realpath "$1"); W=${W:-/var/tmp/frp-mut}
 reset() { git -C $W checkout -q -- . ; git -C $W clean -fdq; }
 reset; cp /verif/known_findings.txt /tmp/ev-mut/ 2>/dev/null
 git -C $W checkout -q --detach $(git -C /repo rev-parse HEAD)
@@ -11,7 +11,7 @@ if ! git -C $W apply "$D/patch.diff" 2>/dev/null; then echo "RESULT $1 patch=DOE
 (cd $W && go build ./... >/dev/null 2>&1) || { echo "RESULT $1 build=FAIL"; reset; exit 2; }
 T=$(mktemp -d)
 for P in $(seq -w 1 20); do
-  ( mkdir -p $T/C$P; /verif/bin/frpsa check -prop C$P -repo $W -verif $T/C$P 2>&1 | grep -E "^(VIOLATED|UNDECIDED|ERROR)" | cut -c1-260 > $T/out.$P ) &
+  ( mkdir -p $T/C$P; cp /verif/known_findings.txt $T/C$P/; /verif/bin/frpsa check -prop C$P -repo $W -verif $T/C$P 2>&1 | grep -E "^(VIOLATED|UNDECIDED|ERROR)" | cut -c1-260 > $T/out.$P ) &
 done
 wait
 N=0
